@@ -273,3 +273,76 @@ package table
 //@   assert[seek-then-step-back] before call prev : called(seekFrom#1) && !ret(Equal#1)
 //@   assert[exact-match-test] before call Equal : arg0 == ret(Key#1) && arg1 == key
 
+// Direction dispatch and accessors of the table iterator.
+//@ func (*Iterator).Next
+//@   props C18 C05
+//@   light
+//@   assert[forward-steps-forward] before call next : itr.opt&REVERSED == 0
+//@   assert[reverse-steps-back] before call prev : itr.opt&REVERSED != 0
+
+//@ func (*Iterator).Rewind
+//@   props C18 C05
+//@   light
+//@   assert[forward-starts-at-first] before call seekToFirst : itr.opt&REVERSED == 0
+//@   assert[reverse-starts-at-last] before call seekToLast : itr.opt&REVERSED != 0
+
+//@ func (*Iterator).Seek
+//@   props C18 C05
+//@   light
+//@   assert[forward-seeks-at-or-after] before call seek : itr.opt&REVERSED == 0 && arg1 == key
+//@   assert[reverse-seeks-at-or-before] before call seekForPrev : itr.opt&REVERSED != 0 && arg1 == key
+
+//@ func (*Iterator).Key
+//@   props C18
+//@   requires itr != nil
+//@   ensures result == itr.bi.key
+//@   assigns nothing
+
+//@ func (*Iterator).Value
+//@   props C18 C06
+//@   light
+//@   assert[decoded-from-current-entry] before call Decode : arg1 == itr.bi.val
+
+//@ func (*Iterator).ValueCopy
+//@   props C18 C06
+//@   light
+//@   assert[copy-of-current-entry] before call Copy : arg0 == itr.bi.val
+//@   assert[decoded-from-the-copy] before call Decode : arg1 == ret(Copy#1)
+
+// Stepping inside a block is stepping the entry index by one; a block's ends are its first and
+// last entry.
+//@ func (*blockIterator).next
+//@   props C18
+//@   light
+//@   assert[one-forward] before call setIdx : arg1 == itr.idx + 1
+//@ func (*blockIterator).prev
+//@   props C18
+//@   light
+//@   assert[one-back] before call setIdx : arg1 == itr.idx - 1
+//@ func (*blockIterator).seekToFirst
+//@   props C18
+//@   light
+//@   assert[first-entry] before call setIdx : arg1 == 0
+//@ func (*blockIterator).seekToLast
+//@   props C18
+//@   light
+//@   assert[last-entry] before call setIdx : arg1 == len(itr.entryOffsets) - 1
+
+// Stepping across blocks: when the current block is exhausted the next (previous) block is
+// loaded and entered at its first (last) entry; past the last (before the first) block is EOF.
+//@ func (*Iterator).next
+//@   props C18
+//@   light
+//@   assert[past-last-block-is-eof] before return#1 : itr.err == io.EOF && itr.bpos >= ret(offsetsLength#1)
+//@   assert[load-current-block] before call block : arg1 == itr.bpos && len(itr.bi.data) == 0
+//@   assert[enter-at-first-entry] before call seekToFirst : called(setBlock#1)
+//@   assert[advance-block-when-exhausted] before call next#2 : !ret(Valid#1) && itr.bi.data == nil
+
+//@ func (*Iterator).prev
+//@   props C18
+//@   light
+//@   assert[before-first-block-is-eof] before return#1 : itr.err == io.EOF && itr.bpos < 0
+//@   assert[load-current-block] before call block : arg1 == itr.bpos && len(itr.bi.data) == 0
+//@   assert[enter-at-last-entry] before call seekToLast : called(setBlock#1)
+//@   assert[previous-block-when-exhausted] before call prev#2 : !ret(Valid#1) && itr.bi.data == nil
+
